@@ -164,7 +164,7 @@ func c04SteerReq(r gen.R) *sl.Req {
 func init() {
 	fw.Register(&fw.Prop{
 		ID: "C04", Level: "exploration",
-		Rule: "rule sets from three generators (matching core, lists sharing transformation prefixes, counters/thresholds) x requests with names repeated within and across collections (2-8 keys per collection) are each executed N times, alternating a long-lived WAF (with unrelated disturber transactions in between) and a freshly built one; a fourth population uses a fully steerable configuration rich in ctl/skip/allow state with the first fresh-WAF run as reference; every repetition's order-independent outcome (interruption, ordered fired ids, per-rule match-data multisets, counters) must equal the reference outcome, i.e. all repetitions agree. The runtime's per-iteration map order is the adversary and is measured: the order in which match data arrived is recorded per repetition. Non-trivial: the pair showed at least two different arrival orders; distinct by (rule-set text, request).",
+		Rule:        "rule sets from three generators (matching core, lists sharing transformation prefixes, counters/thresholds) x requests with names repeated within and across collections (2-8 keys per collection) are each executed N times, alternating a long-lived WAF (with unrelated disturber transactions in between) and a freshly built one; a fourth population uses a fully steerable configuration rich in ctl/skip/allow state with the first fresh-WAF run as reference; every repetition's order-independent outcome (interruption, ordered fired ids, per-rule match-data multisets, counters) must equal the reference outcome, i.e. all repetitions agree. The runtime's per-iteration map order is the adversary and is measured: the order in which match data arrived is recorded per repetition. Non-trivial: the pair showed at least two different arrival orders; distinct by (rule-set text, request).",
 		Assumptions: []string{"observables that legitimately depend on which value of a multi-valued collection is visited first/last (captures, %{MATCHED_VAR} assignments after several matches, messages) are identified by the reference model and not compared; cases whose control flow depends on them are skipped and counted"},
 		Required:    []string{"case_variant_pairs", "pairs_with_varying_iteration_order", "pairs", "disturber_transactions", "pairs_judged_against_fresh_waf_reference"},
 		Plan: func(tier fw.Tier, seed int64) []fw.Batch {
